@@ -1581,6 +1581,15 @@ class Exec(Engine):
 
     # ------------------------------------------------------------------ verification of one function
     def verify(self, key):
+        try:
+            return self._verify(key)
+        except T.StaleContract as e:
+            rep = FnReport(key)
+            rep.missing = str(e)
+            self.report = rep
+            return rep
+
+    def _verify(self, key):
         rep = FnReport(key)
         self.report = rep
         mod, fn = self.repo.lookup(key)
